@@ -26,6 +26,7 @@ func runC13(c *Ctx) {
 	c13RemoveIdentity(c)
 	c13ShrinkCopies(c)
 	c13TrackerAlways(c)
+	c13SelfRemoveIdentity(c)
 }
 
 // heldAt: a Lock/RLock call on a receiver rendered as lockExpr dominates the point and no
